@@ -14,6 +14,7 @@ mod msghdr;
 mod rda;
 mod search;
 mod sim;
+mod summary;
 mod sweep;
 mod vcp;
 
@@ -24,6 +25,7 @@ fn main() {
     let args = Args::parse();
     match args.module.as_str() {
         "sweep" => sweep::run(&args),
+        "summary" => summary::run(&args),
         "cfm" => cfm::run(&args),
         "rda" => rda::run(&args),
         "vcp" => vcp::run(&args),
